@@ -8,7 +8,7 @@ use crate::{
     unwrap_signal,
 };
 use any_spawner::Executor;
-use futures::{channel::oneshot, select, FutureExt};
+use futures::{channel::oneshot, select_biased, FutureExt};
 use send_wrapper::SendWrapper;
 use std::{
     future::Future,
@@ -266,7 +266,9 @@ where
                 let value = self.value.clone();
                 let in_flight = self.in_flight.clone();
                 async move {
-                    select! {
+                    // biased: if the abort message has been sent, it wins even
+                    // if the future has completed in the meantime
+                    select_biased! {
                         // if the abort message has been sent, bail and do nothing
                         _ = abort_rx => {
                             in_flight.update(|n| *n = n.saturating_sub(1));
@@ -318,7 +320,9 @@ where
                 let dispatched = self.dispatched.clone();
                 let in_flight = self.in_flight.clone();
                 async move {
-                    select! {
+                    // biased: if the abort message has been sent, it wins even
+                    // if the future has completed in the meantime
+                    select_biased! {
                         // if the abort message has been sent, bail and do nothing
                         _ = abort_rx => {
                             in_flight.update(|n| *n = n.saturating_sub(1));
